@@ -20,6 +20,7 @@ PROPS = ["C02", "C03", "C04", "C06", "C07", "C08", "C09", "C14"]
 DAY = 1440
 MISSING = -1
 NOQ = [0, 0]
+MAXROWS = 1000              # more ledger rows than any generated input can need (<= 10 tasks x 96 days)
 NONE_NAME = "<none>"          # Task.resource = None (JSON has no null for TLC)
 
 
@@ -217,6 +218,8 @@ def gen_case(rng, direction, n, cid, opts=None):
                 t["fstart"] = now - rng.choice([1, 3, 9]) * DAY
                 t["fend"] = t["fstart"] + rng.choice([0, DAY])
             continue
+        if direction == "bwd" and opts.get("bwdfixed") and rng.random() < 0.4:
+            t["fstart"] = pstart - rng.choice([1, 3, 20]) * DAY
         if direction == "fwd":
             if rng.random() < 0.2:
                 t["minStart"] = pstart + rng.choice([-2 * DAY, 0, DAY, 2 * DAY + 540, 5 * DAY])
@@ -227,6 +230,7 @@ def gen_case(rng, direction, n, cid, opts=None):
                 t["fstart"] = now - rng.choice([2, 5]) * DAY
                 t["fend"] = t["fstart"] + rng.choice([0, 600, DAY])      # completed in the past
     I = {"dir": direction, "balance": opts.get("balance", rng.random() < 0.7),
+         "submin": rng.choice([0, 0, 0, 1, 30, 59]) * 1000000 + rng.choice([0, 0, 250000, 999000]),
          "defEst": q4(rng.choice([0, 0, 8])), "pstart": pstart, "now": now, "tasks": tasks, "roots": roots,
          "resources": resources, "ext": ext}
     return {"id": cid, "I": I}
@@ -292,10 +296,11 @@ def build_wbs(I, keep=None):
 def make_scheduler(I):
     pj = common.pjplan()
     res = [pj.Resource(rname_of(r["name"]), cal.build(r["expr"])) for r in I["resources"] if r["supplied"]]
+    sub = _dt.timedelta(microseconds=I.get("submin", 0))
     if I["dir"] == "fwd":
-        return pj.ForwardScheduler(start=inst(I["pstart"]), resources=res, balance_resources=I["balance"],
+        return pj.ForwardScheduler(start=inst(I["pstart"]) + sub, resources=res, balance_resources=I["balance"],
                                    default_estimate=cal.num(I["defEst"]))
-    return pj.BackwardScheduler(end=inst(I["pstart"]), resources=res, balance_resources=I["balance"],
+    return pj.BackwardScheduler(end=inst(I["pstart"]) + sub, resources=res, balance_resources=I["balance"],
                                 default_estimate=cal.num(I["defEst"]))
 
 
@@ -347,6 +352,8 @@ def project_wbs(w, with_dates=True):
     out = []
     for t in w.tasks:
         d = t.to_dict()
+        d["estimate"] = t.estimate
+        d["spent"] = t.spent
         rec = {"id": t.id, "par": t.parent.id if t.parent else 0, "kids": [c.id for c in t.children],
                "pre": sorted(p.id for p in t.predecessors), "suc": sorted(s.id for s in t.successors)}
         if with_dates:
@@ -362,11 +369,12 @@ def extract(I, sched, numbers):
     """result record R from a Schedule object"""
     n = len(I["tasks"])
     R = {"out": "ok", "start": [MISSING] * n, "end": [MISSING] * n, "est": [NOQ] * n, "spent": [NOQ] * n,
-         "wstart": MISSING, "wend": MISSING, "rows": [], "inexact": False}
+         "wstart": MISSING, "wend": MISSING, "rows": [], "inexact": False, "overflow": False}
     byid = {}
     for t in sched.schedule.tasks:
         byid.setdefault(t.id, t)
-    idx_of = {I["tasks"][i - 1]["id"]: i for i in numbers}
+    num_of_id = {I["tasks"][i - 1]["id"]: i for i in numbers}
+    idx_of = {id(t): num_of_id.get(t.id, 0) for t in sched.schedule.tasks}     # rows name result objects
     for i in numbers:
         t = byid.get(I["tasks"][i - 1]["id"])
         if t is None:
@@ -382,10 +390,13 @@ def extract(I, sched, numbers):
     m, ex = tmin(sched.schedule.end)
     R["wend"] = m
     rname = {rname_of(r["name"]): k for k, r in enumerate(I["resources"], start=1)}
-    for row in sched.resource_usage.rows():
+    robj = {id(r): rname.get(r.name, 0) for r in sched.resources}
+    allrows = sched.resource_usage.rows()
+    R["overflow"] = len(allrows) > MAXROWS
+    for row in allrows[:(60 if R["overflow"] else MAXROWS)]:
         m, ex = tmin(row.date)
-        R["rows"].append({"r": rname.get(row.resource.name, 0), "d": m // DAY if m % DAY == 0 else -999,
-                          "t": idx_of.get(row.task.id, 0), "u": cal.to_q(row.units)})
+        R["rows"].append({"r": robj.get(id(row.resource), 0), "d": m // DAY if m % DAY == 0 else -999,
+                          "t": idx_of.get(id(row.task), 0), "u": cal.to_q(row.units)})
     return R
 
 
@@ -403,10 +414,10 @@ def execute(case):
     case["pure"] = {"before": before, "after": after, "separate": True, "structin": project_wbs(w, False),
                     "structout": {}}
     empty = {"out": out, "start": [], "end": [], "est": [], "spent": [], "wstart": MISSING, "wend": MISSING,
-             "rows": [], "inexact": False}
+             "rows": [], "inexact": False, "overflow": False}
     case["obs"] = {"reserved": [], "filt": [], "resnames": True, "caps": []}
     case["rep"] = []
-    case["clk"] = {"has": False, "now": 0, "R": {"out": "", "start": [], "end": [], "rows": []}}
+    case["clk"] = {"has": False, "now": 0, "R": {"out": "", "start": [], "end": [], "rows": [], "sameRows": False}}
     case["solo"] = {"has": False, "t": 0, "out": "", "start": 0, "end": 0}
     case["schedulable"] = schedulable_hint(I)
     case["lo"], case["hi"] = I["pstart"] // DAY - 3, I["pstart"] // DAY + 3
@@ -461,16 +472,27 @@ def execute(case):
 
     def slim(out2, sc2):
         if out2 != "ok":
-            return {"out": out2, "start": [], "end": [], "rows": []}
+            return dict(empty, out=out2, sameRows=False)
         r2 = extract(I, sc2, numbers)
-        return {"out": "ok", "start": r2["start"], "end": r2["end"], "rows": r2["rows"]}
+        r2["sameRows"] = r2["rows"] == R["rows"]      # JSON volume: identical ledgers are sent once
+        if r2["sameRows"]:
+            r2["rows"] = []
+        return r2
 
-    # repeated calls: same scheduler object, then a fresh one
+    # repeated calls: (1) the same scheduler object again; (2) a fresh scheduler that was CONSTRUCTED under
+    # another clock value; (3) a scheduler that has already scheduled a different WBS with the same ids
     o2, sc2 = guarded(lambda: s.calc(w))
     case["rep"].append(slim(o2, sc2))
+    common.set_now(inst(I["now"] - 9 * DAY - 187))
     s3 = make_scheduler(I)
+    common.set_now(inst(I["now"]))
     o3, sc3 = guarded(lambda: s3.calc(w))
     case["rep"].append(slim(o3, sc3))
+    s6 = make_scheduler(I)
+    wv = build_variant(I)
+    guarded(lambda: s6.calc(wv))
+    o6, sc6 = guarded(lambda: s6.calc(w))
+    case["rep"].append(slim(o6, sc6))
     # another clock value at or before the project start
     fends = [t["fend"] for t in I["tasks"] if t["fend"] != MISSING]
     now2 = I["now"] - 3 * DAY - 417 if case["id"] % 2 else I["pstart"]
@@ -478,7 +500,9 @@ def execute(case):
         common.set_now(inst(now2))
         s4 = make_scheduler(I)
         o4, sc4 = guarded(lambda: s4.calc(w))
-        case["clk"] = {"has": True, "now": now2, "R": slim(o4, sc4)}
+        r4 = slim(o4, sc4)
+        case["clk"] = {"has": True, "now": now2, "R": {"out": r4["out"], "start": r4["start"], "end": r4["end"],
+                                                       "rows": r4["rows"], "sameRows": r4["sameRows"]}}
         common.set_now(inst(I["now"]))
     # balance off: dates of one task do not depend on unrelated tasks
     if I["dir"] == "fwd" and not I["balance"] and n >= 2:
@@ -503,6 +527,19 @@ def _execute_chunk(chunk):
         execute(c)
     common.set_now(None)
     return chunk
+
+
+def build_variant(I):
+    """same ids, hierarchy and links; other estimates: what a scheduler may have seen before"""
+    import copy
+    J = copy.deepcopy(I)
+    for t in J["tasks"]:
+        if t["est"] != NOQ:
+            t["est"] = q4(int(Fraction(*t["est"]) * 4) * 3 + 4)
+        t["spent"] = NOQ
+        t["minStart"] = MISSING
+    w, _, _ = build_wbs(J)
+    return w
 
 
 def related(I, t):
@@ -568,7 +605,7 @@ def generate(tier, seed):
     for _ in range(nrand):
         direction = "fwd" if rng.random() < 0.55 else "bwd"
         n = rng.choice([2, 3, 4, 4, 5, 5, 6, 6, 7, 8] if tier == "quick" else [3, 4, 5, 6, 6, 7, 8, 9, 10])
-        cases.append(gen_case(rng, direction, n, cid))
+        cases.append(gen_case(rng, direction, n, cid, {"bwdfixed": direction == "bwd" and rng.random() < 0.1}))
         cid += 1
     return cases
 
@@ -589,7 +626,7 @@ def run(tier, seed, log):
     common.pjplan()
     cases = generate(tier, seed)
     import multiprocessing as mp
-    with mp.Pool(12) as pool:
+    with mp.Pool(12, maxtasksperchild=1) as pool:      # a fresh process per chunk bounds leaked global state
         cases = pool.map(_execute_chunk, [cases[i:i + 50] for i in range(0, len(cases), 50)])
     cases = [c for ch in cases for c in ch]
     common.set_now(None)
